@@ -140,6 +140,16 @@ def predefined_cases(chk, rng, tier):
     return cases
 
 
+def deep(rng, p=0.08):
+    """now and then an amount with 20..45 decimals (exactness has no
+    precision cap), else None = the operand generator's own choice"""
+    if rng.random() >= p:
+        return None
+    k = rng.randint(20, 45)
+    return rng.choice([-1, 1]) * (rng.randint(0, 999) +
+                                  F(rng.randint(1, 10 ** k - 1) | 1, 10 ** k))
+
+
 def rand_op(rng, w, key):
     """-> (step, prediction, description, unit_level, kinds, op)"""
     syms = list(w.units)
@@ -157,8 +167,8 @@ def rand_op(rng, w, key):
     s1, s2 = rng.choice(syms), rng.choice(syms)
     kinds = rng.choice(KINDS2[:4] * 3 + KINDS2[4:])
     op = rng.choice("*/")
-    e1, m1 = operand(rng, w, s1, kinds[0])
-    e2, m2 = operand(rng, w, s2, kinds[1])
+    e1, m1 = operand(rng, w, s1, kinds[0], deep(rng))
+    e2, m2 = operand(rng, w, s2, kinds[1], deep(rng))
     return ({"k": key, "e": OP(_inplace(rng, op), e1, e2), "_m": (m1, m2)},
             w.predict_mul(op, m1, m2),
             "(%s) %s (%s)" % (describe_operand(m1), op,
@@ -342,6 +352,10 @@ def world_case(chk, rng, wi, n_ops=40):
                     pred["kind"] in ("qty", "number"):
                 chk.count("undefined before its type was declared, defined "
                           "after")
+            if op != "**" and "_m" in st and any(
+                    m[0] != "u" and F(m[1]).denominator > 10 ** 19
+                    for m in st["_m"]):
+                chk.count("operations on amounts with 20..45 decimals")
             if phase == "cascade":
                 chk.count("cascades (a result as an operand)")
                 chk.count("cascade outcome|" + pred["kind"])
@@ -446,6 +460,7 @@ def run(chk, R, tier, seed):
               "outcome|qty-noref", "outcome|incomm", "worlds",
               "undefined before its type was declared, defined after",
               "defining powers of pure-power types",
+              "operations on amounts with 20..45 decimals",
               "cascades (a result as an operand)", "cascade outcome|qty",
               "cascade outcome|number", "cascade outcome|undefined"):
         chk.require(c)
